@@ -247,6 +247,18 @@ impl<W: 'static, R: 'static, T: 'static> XSequence<W, R, T> {
             return Ok(Err(base0));
         }
         let Some(len0) = seq0.len() else { return Err("first sequence is infinite"); };
+        // every position of the chained sequence must fit a usize: the total length -- or, for an endless second
+        // sequence, its last midpoint -- shifted by len0
+        let span1 = match seq1.len() {
+            Some(len1) => len1,
+            None => match seq1 {
+                Self::Chain { midpoint_lengths, .. } => *midpoint_lengths.last().unwrap(),
+                _ => 0,
+            },
+        };
+        if len0.checked_add(span1).is_none() {
+            return Err("sequence is too long");
+        }
         let (parts, midpoint_lengths) = match (seq0, seq1) {
             (
                 Self::Chain {
